@@ -30,8 +30,8 @@ func main() { vf.Main("C45", vf.Exploration, run) }
 
 func run(c *vf.Ctx) {
 	c.Rule("inputs: ALL byte strings of length <=2 (thorough <=3); for each seed object (keys of every kind, messages of every packet kind, armored blocks, cleartext messages, crafted session-key packets) " +
-		"EVERY truncation, at EVERY offset the substitutions {0x00,0x7F,0x80,0xC0,0xFF,b^1,b^0x80} (armored / cleartext seeds also LF '=' '-' ':' ' '), and for every top-level packet header the length rewrites {0,1,191,192,8383,8384,2^32-1} in 1-, 2- and 5-octet form, " +
-		"partial-length headers {2^0,2^1,2^9,2^30} and old-format length types 0..3; each input goes to 11 entry-point variants; non-trivial = distinct (seed, mutation) pairs, resp. distinct short strings that are accepted or reach a packet parser; " +
+		"EVERY truncation, at EVERY offset the substitutions {0x00,0x7F,0x80,0xC0,0xFF,b^1,b^0x80} (armored / cleartext seeds also LF '=' '-' ':' ' '), and for every top-level packet header the length rewrites {0,1,L-1,L,L+1,191,192,8383,8384,65535,2^31-1,2^31,2^32-16..2^32-1} in 1-, 2- and 5-octet form, " +
+		"partial-length headers {2^0,2^1,2^9,2^30} (also followed by a 5-octet length) and old-format length types 0..3; nested: signature subpacket areas cut at every position, MPI bit counts, every subpacket's own length field (signature and user-attribute packets) with the same boundary set; each input goes to 11 entry-point variants; non-trivial = distinct (seed, mutation) pairs, resp. distinct short strings that are accepted or reach a packet parser; " +
 		"oracle: no panic, result or error, bodies reach EOF/error within 10^6 Read calls")
 	c.Assume("the prompt function gives up (returns an error) after 3 calls: ReadMessage is documented to call it forever otherwise; keyrings passed to ReadMessage/CheckDetachedSignature are trusted (fixture) keys; a CPU loop that performs no Read call would hang the run instead of being reported")
 	go watchdog(c)
